@@ -530,7 +530,7 @@ def connect_jobs():
 
 
 # ------------------------------------------------------------------ waiting on a process whose output was left unread
-LATE_APIS = ['wait', 'communicate', 'read-all', 'wait_closed', 'run-like', 'collect-poll']
+LATE_APIS = ['wait', 'communicate', 'read-all', 'wait_closed', 'run-like', 'collect-poll', 'close']
 
 
 def late_wait_case(n, k, api):
@@ -573,6 +573,11 @@ def late_wait_case(n, k, api):
             elif api == 'wait_closed':
                 await p.wait_closed()
                 o, e = p.collect_output()
+                res['out'], res['err'], res['status'] = None, None, p.exit_status
+            elif api == 'close':
+                # the application loses interest: close() and wait for it, whatever is still unread or on its way
+                p.close()
+                await p.wait_closed()
                 res['out'], res['err'], res['status'] = None, None, p.exit_status
             elif api == 'collect-poll':
                 # an application that looks at the output so far after every packet (collect_output), then waits
@@ -634,7 +639,7 @@ def late_wait_case(n, k, api):
         elif res.get('out') is not None:
             if res['out'] != out_data or res['err'] != err_data:
                 viol.append(('output-incomplete', '%s returned %d/%d stdout and %d/%d stderr bytes' % (api, len(res['out']), n, len(res['err']), len(err_data))))
-            if res['status'] != 7:
+            if res['status'] != 7 and api != 'close':
                 viol.append(('exit-status-lost', repr(res['status'])))
         exc = loop.unretrieved()
         if exc:
